@@ -73,6 +73,15 @@ func (g *Gen) doCall(st *State, c *ssa.Call) *Val {
 			}
 		}
 	}
+	// a value of a named function type that carries a contract (`iface pkg.T.call`): every function passed
+	// as a T is assumed to satisfy it (listed as an assumption, like interface implementations outside /repo)
+	if nt, ok := cc.Value.Type().(*types.Named); ok && nt.Obj().Pkg() != nil {
+		key := nt.Obj().Pkg().Path() + "::" + nt.Obj().Name() + ".call"
+		if sp := g.P.specs[key]; sp != nil {
+			g.notes = append(g.notes, "function-type contract "+key+" assumed for every function value of that type")
+			return g.callWithSpec(st, c, sp, nil, args, text)
+		}
+	}
 	// closure / function value: the callee may be any in-repo function, so the default non-nil
 	// precondition is owed for every pointer/interface argument
 	if g.hooks != nil && g.hooks.paramsNonNil {
